@@ -106,8 +106,17 @@ func genAsn1() {
 			})
 		}
 	}
-	writeGen("Asn1Tags", fmt.Sprintf("def asn1Tags : List (Nat × String) := [%s]\ndef asn1RecurseIntoEmpty : Bool := %v\ndef asn1ValueIgnoresClass : Bool := %v\n",
-		strings.Join(parts, ", "), recurseIntoEmpty, ignoresClass))
+	// isBinaryASN1 (internal/file/identifier.go) also walks the nested structure: it calls ParseRaw and refuses data whose
+	// constructed content is not itself DER (otherwise such data is "unknown ASN.1 data": reported as ASN.1 without being it)
+	walks := false
+	if ib := findFunc(parse("internal/file/identifier.go"), "isBinaryASN1"); ib != nil {
+		walks = strings.Contains(nodeText(ib.Body), "ParseRaw(")
+	} else {
+		die("identifier.go: isBinaryASN1 not found")
+	}
+	facts["asn1.identifierWalksTree"] = walks
+	writeGen("Asn1Tags", fmt.Sprintf("def asn1Tags : List (Nat × String) := [%s]\ndef asn1RecurseIntoEmpty : Bool := %v\ndef asn1ValueIgnoresClass : Bool := %v\ndef asn1IdentifierWalksTree : Bool := %v\n",
+		strings.Join(parts, ", "), recurseIntoEmpty, ignoresClass, walks))
 	facts["asn1.tagCount"] = len(rows)
 	facts["asn1.fromTagChecksClass"] = classGuard
 	facts["asn1.recurseIntoEmpty"] = recurseIntoEmpty
